@@ -55,6 +55,11 @@ namespace Givaro {
     template <class Domain>
     inline typename Poly1Dom<Domain,Dense>::Rep& Poly1Dom<Domain,Dense>::sqr( Rep& R, const Rep& P) const
     {
+        if (&R == &P) { // the product is written while P is still being read
+            Rep tmp; init(tmp);
+            sqr(tmp, P);
+            return assign(R,tmp);
+        }
         const size_t sP = P.size();
         if (sP ==0) { R.resize(0); return R; }
         size_t sR = sP<<1;
@@ -67,6 +72,11 @@ namespace Givaro {
     template <class Domain>
     inline typename Poly1Dom<Domain,Dense>::Rep& Poly1Dom<Domain,Dense>::mul( Rep& R, const Rep& P, const Rep& Q ) const
     {
+        if ((&R == &P) || (&R == &Q)) { // the product is written while P and Q are still being read
+            Rep tmp; init(tmp);
+            mul(tmp, P, Q);
+            return assign(R,tmp);
+        }
         size_t sR = R.size();
         size_t sP = P.size();
         size_t sQ = Q.size();
@@ -86,6 +96,11 @@ namespace Givaro {
     template <class Domain>
     inline typename Poly1Dom<Domain,Dense>::Rep& Poly1Dom<Domain,Dense>::mul( Rep& R, const Rep& P, const Rep& Q, const Degree& Val, const Degree& deg) const
     {
+        if ((&R == &P) || (&R == &Q)) { // the product is written while P and Q are still being read
+            Rep tmp; init(tmp);
+            mul(tmp, P, Q, Val, deg);
+            return assign(R,tmp);
+        }
         size_t sR = R.size();
         size_t sP = P.size();
         size_t sQ = Q.size();
